@@ -19,7 +19,7 @@ EXTENDS TLC, Json, Sequences
 
 Presentations == {"plain", "rich0", "rich5"}      \* rich = Seek, ReadAt, WriteTo, ReadByte, Len, Size; 5 = after 5 foreign bytes
 Deliveries == {"full", "fixed1", "fixed3", "fixed7", "fixed4096", "fixed4097"}
-Faults == {"eof", "eof-with-data", "ioerr", "ioerr-with-data"}
+Faults == {"eof", "eof-with-data", "ioerr", "ioerr-with-data", "uxeof", "uxeof-with-data"}
 Drains == {"read1", "read7", "read512", "read4096", "read32775", "copy", "read12-then-copy", "read1-then-copy"}
 
 VARIABLE u
